@@ -254,6 +254,14 @@ fn judge_source(spec: &ProgSpec, inject: Inject, stack_flag: bool) -> Obs {
         obs.label("unusual-file-name");
     }
     dir.write(src, &file_bytes(&text, inject));
+    // a third of the time an object file of an unrelated program already sits beside the source,
+    // under the name a default compile would give it, and is at least as new as the source: it is
+    // not the source, and no entry point may take it for the source
+    if (obs.key >> 9) % 3 == 0 {
+        dir.write(&format!("{stem}.lc3"), &[0x30, 0x00, 0xF0, 0x25]);
+        dir.write(&format!("{stem}.obj"), &[0x30, 0x00, 0xF0, 0x25]);
+        obs.label("unrelated-object-file-beside-the-source");
+    }
     // the three documented spellings of the flag
     let feat: Vec<&str> = if stack_flag {
         match obs.key % 3 {
@@ -647,7 +655,7 @@ impl Prop for C07 {
         true
     }
     fn rule(&self) -> &'static str {
-        "ProgGen sources, valid and with one injected error of every class (lexical, operand kind, literal range, duplicate label, undefined label, repeated .orig, and a label out of reach at ANY statement position for every PC-relative form BR/BRz/LD/LDI/LEA/ST/STI/JSR/CALL - the only class that surfaces when words are emitted; paddings barely / comfortably / far beyond the reach, and backward references in programs whose total size sits exactly at the reach of the field), valid programs whose image ends within 2 words of the top of memory, files that are not UTF-8 (a Latin-1 byte, truncated or invalid sequences - in a comment, a string literal, a label or as a token), files that begin with, contain at a line start or end with one of 26 stream signatures (byte order marks, `#!`, escape introducers, CR LF, end-of-input controls, blank look-alikes), 20 kinds of file name, with and without stack mnemonics, with and without `--features stack`, through the real binary: `lace check f.asm`, `lace compile f.asm out.lc3 [flags]`, `lace run f.asm [flags]` and the bare `lace f.asm [flags]` (flag spelled `-f stack`, `--features stack` or `--features=stack`). \
+        "ProgGen sources, valid and with one injected error of every class (lexical, operand kind, literal range, duplicate label, undefined label, repeated .orig, and a label out of reach at ANY statement position for every PC-relative form BR/BRz/LD/LDI/LEA/ST/STI/JSR/CALL - the only class that surfaces when words are emitted; paddings barely / comfortably / far beyond the reach, and backward references in programs whose total size sits exactly at the reach of the field), valid programs whose image ends within 2 words of the top of memory, files that are not UTF-8 (a Latin-1 byte, truncated or invalid sequences - in a comment, a string literal, a label or as a token), files that begin with, contain at a line start or end with one of 26 stream signatures (byte order marks, `#!`, escape introducers, CR LF, end-of-input controls, blank look-alikes), 20 kinds of file name, with or without an unrelated, newer object file of the same stem beside the source, with and without stack mnemonics, with and without `--features stack`, through the real binary: `lace check f.asm`, `lace compile f.asm out.lc3 [flags]`, `lace run f.asm [flags]` and the bare `lace f.asm [flags]` (flag spelled `-f stack`, `--features stack` or `--features=stack`). \
          Oracle: compile and run (same flags) agree on whether the source assembles (run reaches 'Running emitted binary' iff compile exits 0); compile rejects => run and (default setting) check report an error, where a crash (status 101 / signal / panic message) never counts as a report; check succeeds => compile succeeds; check never crashes. \
          `lace watch`: five fixed scenarios of 3-7 plain rewrites (same labelled source twice, failures half-way then valid again, stack mnemonics, and two in which versions with 3,700 / 9,000 / 40,000 labels are followed by small versions that redefine or wrongly use those names) and 16 (quick) / 80 (thorough) generated ones - 4-7 contents from a pool of ten sources that share label names (valid, failing in the lexer, parser, at backpatch, at emission, on a duplicate label), each saved by rewriting in place, remove-then-create, rename-over or a two-step write, optionally after another file of the folder was created, removed or written, optionally keeping the file's previous modification time (one fixed scenario alternates two versions of equal length that way): after each debounced re-check the verdict printed (Success / diagnostic / crash) must equal `lace check` on the same content; a scenario that yields no verdict within 15 s is recorded as inconclusive and not asserted. \
          Non-trivial: the only error is an emission-time one, or the source uses a stack mnemonic, or a watch scenario. Distinct = hash(source, flag)."
